@@ -5,12 +5,15 @@
       connections map[uint64]*ActiveConnection      keyed by the BARE stream id
       connCount   atomic.Int64
 
-    handleStreamOpenAsync : connections[streamID] = ac ; connCount.Add(1)       (after a successful dial)
+    handleStreamOpenAsync : displaced := connections[id]; connections[id] = ac; if displaced == nil
+                            { connCount.Add(1) } else { displaced.Close() }          (after a successful dial)
     removeConnection(id)  : if present { delete(connections, id); connCount.Add(-1) }
     closeConnection(id,p) : ac := removeConnection(id); if ac != nil { ac.Close(); WriteStreamClose(p, id) }
     HandleStreamData      : ac := connections[id]; decrypt with ac.sessionKey — a frame sealed under the
                             key of ANOTHER tunnel fails to decrypt → closeConnection(id, sender)
-    readLoop(ac) exit     : closeConnection(ac.StreamID, ac.RemoteID)   — by id, not by record
+    readLoop(ac) exit     : closeRecord(ac)  — removes the record only if it is still stored under its id
+                            (repaired by fixes/C17-teardown-compares-record.patch; the pinned code tore down
+                            by id and counted a displaced record twice)
   Every accepted open gets a serial number (the order of successful dials); the serial stands for the
   record `ac`, its destination socket and its session key.
 -/
@@ -49,11 +52,18 @@ inductive Ev
 
 namespace Handler
 
-/-- successful `handleStreamOpenAsync` (the record gets serial `h.next`). -/
+/-- successful `handleStreamOpenAsync` (the record gets serial `h.next`).  A record already stored
+    under the id is displaced: the slot is counted once, the displaced connection is closed. -/
 def opened (h : Handler) (id peer : Nat) : Handler × List Ev :=
-  ({ h with conns := h.conns.set id (Conn.mk' id peer h.next), count := h.count + 1, next := h.next + 1,
-            dstOpen := h.next :: h.dstOpen },
-   [.ack peer id])
+  match h.conns.get id with
+  | some old =>
+    ({ h with conns := h.conns.set id (Conn.mk' id peer h.next), next := h.next + 1,
+              dstOpen := h.next :: h.dstOpen.filter (· != old.serial) },
+     (if h.dstOpen.contains old.serial then [.dstClosed old.serial] else []) ++ [.ack peer id])
+  | none =>
+    ({ h with conns := h.conns.set id (Conn.mk' id peer h.next), count := h.count + 1, next := h.next + 1,
+              dstOpen := h.next :: h.dstOpen },
+     [.ack peer id])
 
 /-- An open that is refused — connection limit, unknown forward key, resolve failure, destination
     not allowed, key generation / key exchange failure (all-zero or low-order ephemeral key), dial
@@ -87,11 +97,22 @@ def data (h : Handler) (id fromPeer serial : Nat) : Handler × List Ev :=
     else if c.serial = serial then (h, [.dst c.serial])
     else h.closeConn id fromPeer                           -- decrypt error
 
+/-- `closeRecord(ac)`: tear down exactly the record `c` — only if it is still the one stored under
+    its id. -/
+def closeRecord (h : Handler) (c : Conn) : Handler × List Ev :=
+  match h.conns.get c.id with
+  | some cur =>
+    if cur.serial = c.serial then
+      ({ h with conns := h.conns.del c.id, count := h.count - 1, dstOpen := h.dstOpen.filter (· != c.serial) },
+       (if h.dstOpen.contains c.serial then [.dstClosed c.serial] else []) ++ [.close c.peer c.id])
+    else ({ h with dstOpen := h.dstOpen.filter (· != c.serial) }, [])
+  | none => ({ h with dstOpen := h.dstOpen.filter (· != c.serial) }, [])
+
 /-- the destination of `serial` closed its side: `readLoop` sends FIN and runs its deferred
-    `closeConnection(ac.StreamID, ac.RemoteID)`. -/
+    `closeRecord(ac)`. -/
 def dstEof (h : Handler) (c : Conn) : Handler × List Ev :=
   let h1 := { h with dstOpen := h.dstOpen.filter (· != c.serial) }
-  let (h2, evs) := h1.closeConn c.id c.peer
+  let (h2, evs) := h1.closeRecord c
   (h2, [.fin c.peer c.id] ++ evs)
 
 end Handler
